@@ -11,10 +11,11 @@ for id in $IDS; do
   props="$prop"; [ -f $d/also.txt ] && props="$props $(cat $d/also.txt)"
   out=$(TRIAL_LINES=3 tools/trial.sh $d/patch.diff $TIER $props 2>&1)
   echo "#### $id"; echo "$out"
-  /venv/bin/python - "$d/meta.json" "$TIER" <<PY
+  printf '%s\n' "$out" > /verif/.build/eval_last_out.txt
+  /venv/bin/python - "$d/meta.json" "$TIER" <<'PY'
 import json,sys,re
 meta=json.load(open(sys.argv[1])); tier=sys.argv[2]
-out='''$out'''
+out=open('/verif/.build/eval_last_out.txt', errors='replace').read()
 det=[]
 cur=None
 for ln in out.splitlines():
